@@ -190,15 +190,19 @@ def setTime (name : String) (t : Int) (st : List (String × Wire) × Option Stri
     | .ok s => (setKey name (.num s) st.1, st.2)
     | _ => (st.1, match st.2 with | none => some "range" | some e => some e)
 
+/-- `if aud != nil { if len(aud) == 1 { Set("aud", aud[0]) } else { Set("aud", aud) } }` -/
+def setAud (aud : List String) (m : List (String × Wire)) : List (String × Wire) :=
+  match aud with
+  | [] => m
+  | [a] => setKey "aud" (.str a) m
+  | l => setKey "aud" (.arr (l.map Wire.str)) m
+
 /-- the map handed to json.Marshal, or the first recorded error -/
 def claimsMap (c : Claims) : Outcome (List (String × Wire)) :=
   let m0 : List (String × Wire) := match c.raw with | .obj kvs => kvs | _ => []
   let m1 := if c.iss ≠ "" then setKey "iss" (.str c.iss) m0 else m0
   let m2 := if c.sub ≠ "" then setKey "sub" (.str c.sub) m1 else m1
-  let m3 := match c.aud with
-    | [] => m2
-    | [a] => setKey "aud" (.str a) m2
-    | l => setKey "aud" (.arr (l.map Wire.str)) m2
+  let m3 := setAud c.aud m2
   let st := setTime "iat" c.iat (setTime "nbf" c.nbf (setTime "exp" c.exp (m3, none)))
   let m7 := if c.jti ≠ "" then setKey "jti" (.str c.jti) st.1 else st.1
   match st.2 with
